@@ -64,14 +64,15 @@ type lcKey struct {
 }
 
 type lcRun struct {
-	mu         sync.Mutex
-	progs      map[lcKey][]string
-	observed   []lcEntry
-	nextK      map[lcKey]int // owner -> number of cleanups registered so far
-	variants   []string
-	vseed      int
-	handles    map[lcKey]*f1testing.T // (f,i) -> handle the first component saw
-	handleNote string
+	mu          sync.Mutex
+	progs       map[lcKey][]string
+	observed    []lcEntry
+	nextK       map[lcKey]int // owner -> number of cleanups registered so far
+	variants    []string
+	vseed       int
+	stickyPanic int                    // -1, or the one way every panic of this behaviour is raised
+	handles     map[lcKey]*f1testing.T // (f,i) -> handle the first component saw
+	handleNote  string
 }
 
 // sameHandle checks C20's handle clause: all components of one setup / one iteration get the same handle.
@@ -140,8 +141,22 @@ func (r *lcRun) doFailNow(t *f1testing.T) {
 	}
 }
 
+// a panic value that cannot be compared with == (a by-value struct error with a slice field)
+type lcUncomparable struct{ fields []string }
+
+func (e lcUncomparable) Error() string { return "planned uncomparable error" }
+
 func (r *lcRun) doPanic(t *f1testing.T) {
-	switch r.pick("panic", 11) {
+	v := r.pick("panic", 13)
+	// every other behaviour panics the same way each time: the same worker recovers the same kind of value repeatedly
+	if r.stickyPanic >= 0 {
+		v = r.stickyPanic
+	}
+	switch v {
+	case 11:
+		panic([]byte("planned panic with a byte slice"))
+	case 12:
+		panic(lcUncomparable{fields: []string{"a", "b"}})
 	case 9:
 		t.Time("stage", func() { panic(errors.New("planned panic inside a timed stage")) })
 	case 10:
@@ -223,7 +238,10 @@ func lcTrigger(mode string, n int) (*api.Trigger, error) {
 
 func lcReplay(idx int, b lcBehaviour, mode string) lcResult {
 	res := lcResult{Idx: idx, Mode: mode}
-	r := &lcRun{progs: map[lcKey][]string{}, nextK: map[lcKey]int{}, vseed: idx*7919 + 13, handles: map[lcKey]*f1testing.T{}}
+	r := &lcRun{progs: map[lcKey][]string{}, nextK: map[lcKey]int{}, vseed: idx*7919 + 13, handles: map[lcKey]*f1testing.T{}, stickyPanic: -1}
+	if idx%2 == 1 {
+		r.stickyPanic = (idx / 2) % 13
+	}
 	for _, e := range b.Log {
 		switch e.T {
 		case "P":
